@@ -169,9 +169,14 @@ func verifHarness_C11_dispatch(kind int, member int, target int) {
 // dropped without blocking when full; a cancelled channel never blocks either.
 func verifHarness_C13_enqueue(cancelled int) {
 	n := verifBareNode(V2, 1, 1)
+	// the queue of a channel set up by the real Channel.initialize holds 64 items (the bound the property names)
+	rc := &Channel{node: n, rwc: &verifRWC{}}
+	verifAssert(rc.initialize() == nil, "C13/K2/channel-init")
+	verifAssert(cap(rc.chWrite) == 64, "C13/K2/queue-bound-is-64")
 	ch := verifBareChannel(n)
+	ch.chWrite = make(chan interface{}, cap(rc.chWrite))
 	fill := verifNondetInt()
-	verifAssume(fill >= 0 && fill <= writeBufferSize)
+	verifAssume(fill >= 0 && fill <= 64)
 	verifChanSymFill(ch.chWrite, fill)
 	if cancelled == 1 {
 		ch.ctxCancel()
@@ -181,7 +186,7 @@ func verifHarness_C13_enqueue(cancelled int) {
 	verifAssert(!blocked, "C13/K2/enqueue-never-blocks")
 	got, first := verifDrainNew(ch)
 	if cancelled == 0 {
-		verifAssert(verifIff(got == 1, fill < writeBufferSize), "C13/K2/queued-iff-backlog-below-64")
+		verifAssert(verifIff(got == 1, fill < 64), "C13/K2/queued-iff-backlog-below-64")
 	}
 	verifAssert(got <= 1, "C13/K2/at-most-once")
 	if got == 1 {
